@@ -265,6 +265,7 @@ func init() {
 				run.Sample(map[string]any{"config": id2, "LIN functions": lr.Functions, "LIN obligations": lr.Obligations})
 			}
 		}
+		groupFoundations(c, true)
 	}
 }
 
